@@ -227,7 +227,7 @@ func checkC13(c *Ctx) {
 			}
 		}
 		if inner == nil {
-			c.Violated("T-C13-order", fn, "inner hash over seven parts", "no BytesCombine of seven parts found", f.Pos())
+			c.Undecided("T-C13-order", fn, "inner hash over seven parts", "no BytesCombine of seven parts found", f.Pos())
 			continue
 		}
 		var desc []string
@@ -293,6 +293,7 @@ func checkC13(c *Ctx) {
 	st := bidx(c, "B-IDX", []*ssa.Function{f, c.Fn("sm2", "keXHat"), c.Fn("sm2", "BytesCombine"), c.Fn("sm2", "leftPad32")}, nil)
 	_ = st
 	c03IsOnCurve(c, "P-C03-formulas")
+	fixedWidthHashed(c, "P-WIDTH-hash")
 }
 
 func c13XHat(c *Ctx) {
